@@ -177,8 +177,13 @@ def f_ref_chain(rng, u):
 
 def f_struct(rng, u):
     n = "Pair" + u
-    v = rng.choice(["named", "plain", "same-type", "mixed"])
-    if v == "named":
+    v = rng.choice(["named", "plain", "same-type", "mixed", "plain-named", "plain-named-same"])
+    if v == "plain-named":
+        # a reference named after its type BEFORE a named assignment of the same Rust type (String)
+        alt = Alt([R("Id"), R("Colon"), R("Num", name="value")])
+    elif v == "plain-named-same":
+        alt = Alt([R("Num"), R("Colon"), R("Num", name="second"), R("Id", name="third")])
+    elif v == "named":
         alt = Alt([R("Id", name="key"), R("Colon"), R("Num", name="value")])
     elif v == "plain":
         alt = Alt([R("Id"), R("Colon"), R("Num")])
@@ -422,6 +427,10 @@ def handwritten():
         "LP: '(';\nRP: ')';\n", ["( 1 2 3 )", "( 1 ( 2 3 ) 4 )", "5"])
     add("vec-left-boxed", "S: Item;\nItem: Num | '(' Items ')';\n@vec Items: Items Item | Item;\nterminals\nNum: /\\d+/;\n"
         "LP: '(';\nRP: ')';\n", ["( 1 2 3 )", "( 1 ( 2 3 ) 4 )", "5"])
+    add("struct-plain-then-named", "S: Entry+;\nEntry: Key ':' value=Val ';';\nKey: Id;\nVal: Num;\nterminals\nId: /[a-z]+/;\n"
+        "Num: /\\d+/;\nColon: ':';\nSemi: ';';\n", ["a : 1 ;", "a : 1 ; bb : 22 ;"])
+    add("struct-plain-then-named-terminals", "S: Id ':' value=Num second=Id;\nterminals\nId: /[a-z]+/;\nNum: /\\d+/;\nColon: ':';\n",
+        ["a : 1 b", "zz : 42 q"])
     add("vec-left", "@vec A: A B | B;\nB: Num;\nterminals\nNum: /\\d+/;\n", ["1 2 3", "7", "4 5"])
     add("vec-right", "@vec A: B A | B;\nB: Num;\nterminals\nNum: /\\d+/;\n", ["1 2 3", "7", "4 5"])
     add("vec-left-direct", "@vec A: A Num | Num;\nterminals\nNum: /\\d+/;\n", ["1 2 3", "9"])
